@@ -68,7 +68,7 @@ var bigDigitFns = map[string]bool{"toPrecision": true, "toExponential": true, "t
 func init() {
 	run.Register(&run.Check{
 		ID:   "C02",
-		Rule: "surface cases: every function reachable from the global object (discovered at run time by walking own property names, accessors included) x every receiver kind x pairs/triples of argument kinds (quick: all receivers x a seed-chosen pairwise slice; thorough: full pair product + third argument + new/apply/bind/Go-API routes), each result and each caught exception passed through every Value/Object accessor; source cases: junk and mutated programs through Run/Eval/Compile/Call/Object/eval/Function; stack cases: recursion shapes x limits x depths around the limit; non-trivial = distinct (function, receiver kind, argument kinds) triples whose call reached the built-in (returned or threw a JS error), distinct hostile sources, distinct (shape, limit, depth)",
+		Rule: "surface cases: every function reachable from the global object (discovered at run time by walking own property names, accessors included) x every receiver kind x pairs/triples of argument kinds (quick: all receivers x a seed-chosen 3x3 slice of argument-kind pairs; thorough: all receivers x a seed-chosen 12x12 slice, plus sampled third arguments and new/apply/bind/Go-API routes), each result and each caught exception passed through every Value/Object accessor; source cases: junk and mutated programs through Run/Eval/Compile/Call/Object/eval/Function; stack cases: recursion shapes x limits x depths around the limit; non-trivial = distinct (function, receiver kind, argument kinds) triples whose call reached the built-in (returned or threw a JS error), distinct hostile sources, distinct (shape, limit, depth)",
 		Assumptions: []string{
 			"resource exhaustion is out of scope: array-like lengths are capped at 65536, and digit-count arguments above 3000 are not passed to toFixed/toExponential/toPrecision (they allocate that many bytes)",
 			"a worker process death or a hang (driver watchdog, confirmed alone) is attributed to the announced call",
